@@ -36,7 +36,7 @@ const MAX_TXT_VALUE_LENGTH: usize = 255;
 
 /// A conservative maximum size (in bytes) of a complete TXT record,
 /// as encoded by [`append_txt_record`].
-const MAX_TXT_RECORD_SIZE: usize = MAX_TXT_VALUE_LENGTH + 45;
+const MAX_TXT_RECORD_SIZE: usize = MAX_TXT_VALUE_LENGTH + 76;
 
 /// The maximum DNS packet size is 9000 bytes less the maximum
 /// sizes of the IP (60) and UDP (8) headers.
